@@ -103,9 +103,9 @@ func inputsFor(multi bool, maxLen int) [][][]Step {
 }
 
 type Writer struct {
-	f *os.File
-	w *bufio.Writer
-	N int
+	f      *os.File
+	w      *bufio.Writer
+	N      int
 	ByComb map[string]int
 }
 
@@ -229,6 +229,12 @@ func GenFaults(w *Writer, maxLen int, rng *rand.Rand, keep float64) {
 							if take() {
 								w.Put(RunStream(c, p, sc, pat, stop))
 							}
+							// the same with sources that do not look at the context they are given
+							if anyTrue(pat) && take() {
+								SrcIgnoreCtx = true
+								w.Put(RunStream(c, p, sc, pat, stop))
+								SrcIgnoreCtx = false
+							}
 						}
 					}
 				}
@@ -306,4 +312,13 @@ func GenRandom(w *Writer, rng *rand.Rand, n int) {
 			w.Put(RunSlice(c, p, in))
 		}
 	}
+}
+
+func anyTrue(b []bool) bool {
+	for _, x := range b {
+		if x {
+			return true
+		}
+	}
+	return false
 }
